@@ -76,9 +76,64 @@ package filter
 (assert (forall ((a V) (b V)) (! (=> (deep-equal a b) (forall ((l V)) (= (sel-matches a l) (sel-matches b l)))) :pattern ((deep-equal a b)))))
 @*/
 
+/*@ theory filtereq
+;; theory filters
+; ---- C17 completeness: (bs a b) = "a and b are comparable filters built the same way" (structural
+; congruence, defined per filter type; typed filter packages extend it for their own types) ----
+(declare-fun bs (V V) Bool)
+(declare-fun |impl!filter.ComparableFilter| (GoType) Bool)
+(assert (forall ((a V) (b V)) (! (=> (bs a b) (and (not (= a vnil)) (not (= b vnil)) (= (dyntype a) (dyntype b))
+    (|impl!filter.ComparableFilter| (dyntype a)))) :pattern ((bs a b)))))
+(assert (forall ((a V) (b V)) (! (=> (and (not (= a vnil)) (not (= b vnil)) (= (dyntype a) |ty!filter.nullFilter|) (= (dyntype b) |ty!filter.nullFilter|))
+    (bs a b)) :pattern ((bs a b)))))
+(assert (forall ((a V) (b V)) (! (=> (and (not (= a vnil)) (not (= b vnil)) (= (dyntype a) |ty!filter.allFilter|) (= (dyntype b) |ty!filter.allFilter|))
+    (bs a b)) :pattern ((bs a b)))))
+(assert (forall ((a V) (b V)) (! (=> (and (not (= a vnil)) (not (= b vnil)) (= (dyntype a) |ty!*filter.notFilter|) (= (dyntype b) |ty!*filter.notFilter|))
+    (= (bs a b) (bs (|F!filter.notFilter!child| a) (|F!filter.notFilter!child| b)))) :pattern ((bs a b)))))
+(define-fun bsList ((x (Slice V)) (y (Slice V))) Bool
+  (and (= (slen x) (slen y)) (forall ((j Int)) (=> (and (<= 0 j) (< j (slen x))) (bs (select (sarr x) j) (select (sarr y) j))))))
+(assert (forall ((a V) (b V)) (! (=> (and (not (= a vnil)) (not (= b vnil)) (= (dyntype a) |ty!filter.andFilter|) (= (dyntype b) |ty!filter.andFilter|))
+    (= (bs a b) (bsList (|unbox!filter.andFilter| a) (|unbox!filter.andFilter| b)))) :pattern ((bs a b)))))
+(assert (forall ((a V) (b V)) (! (=> (and (not (= a vnil)) (not (= b vnil)) (= (dyntype a) |ty!filter.orFilter|) (= (dyntype b) |ty!filter.orFilter|))
+    (= (bs a b) (bsList (|unbox!filter.orFilter| a) (|unbox!filter.orFilter| b)))) :pattern ((bs a b)))))
+; same NSName representation: same full entries, same partial entries in the same order
+(define-fun nsSame ((x |S!filter.nsNameFilter|) (y |S!filter.nsNameFilter|)) Bool
+  (and (forall ((k NSN)) (= (select (|fdom!S!nsname.NSName!Bool| (|filter.nsNameFilter.fullset| x)) k)
+                            (select (|fdom!S!nsname.NSName!Bool| (|filter.nsNameFilter.fullset| y)) k)))
+       (forall ((k NSN)) (=> (select (|fdom!S!nsname.NSName!Bool| (|filter.nsNameFilter.fullset| x)) k)
+                             (= (select (|fval!S!nsname.NSName!Bool| (|filter.nsNameFilter.fullset| x)) k)
+                                (select (|fval!S!nsname.NSName!Bool| (|filter.nsNameFilter.fullset| y)) k))))
+       (= (slen (|filter.nsNameFilter.partials| x)) (slen (|filter.nsNameFilter.partials| y)))
+       (forall ((p Int)) (=> (and (<= 0 p) (< p (slen (|filter.nsNameFilter.partials| x))))
+            (= (select (sarr (|filter.nsNameFilter.partials| x)) p) (select (sarr (|filter.nsNameFilter.partials| y)) p))))))
+(assert (forall ((a V) (b V)) (! (=> (and (not (= a vnil)) (not (= b vnil)) (= (dyntype a) |ty!filter.nsNameFilter|) (= (dyntype b) |ty!filter.nsNameFilter|))
+    (= (bs a b) (nsSame (|unbox!filter.nsNameFilter| a) (|unbox!filter.nsNameFilter| b)))) :pattern ((bs a b)))))
+; selector filters: the same (abstract) selector value
+(assert (forall ((a V) (b V)) (! (=> (and (not (= a vnil)) (not (= b vnil)) (= (dyntype a) |ty!*filter.selectorFilter|) (= (dyntype b) |ty!*filter.selectorFilter|))
+    (= (bs a b) (= (|F!filter.selectorFilter!selector| a) (|F!filter.selectorFilter!selector| b)))) :pattern ((bs a b)))))
+; ---- assumed completeness of reflect.DeepEqual for the values compared with it: a value is deeply
+; equal to itself (no NaN / func values inside selectors), and two nsNameFilter values with the same
+; map contents and the same partial entries (both slices built by append from nil: nil iff empty) ----
+(assert (forall ((a V)) (! (deep-equal a a) :pattern ((deep-equal a a)))))
+(assert (forall ((a V) (b V)) (! (=> (and (= (dyntype a) |ty!filter.nsNameFilter|) (= (dyntype b) |ty!filter.nsNameFilter|)
+      (nsSame (|unbox!filter.nsNameFilter| a) (|unbox!filter.nsNameFilter| b)))
+    (deep-equal a b)) :pattern ((deep-equal a b)))))
+@*/
+
+/*@ theory nspartials
+;; theory filters
+; the partial entries NSName() keeps, as a function of its arguments: the entries with an empty
+; field among the first n ids, in argument order (base = the nil slice the loop starts from)
+(define-fun-rec pf ((ids (Slice NSN)) (n Int) (base (Slice NSN))) (Slice NSN)
+  (ite (<= n 0) base
+       (let ((p (pf ids (- n 1) base)) (x (select (sarr ids) (- n 1))))
+         (ite (idFull x) p ((as mkslice (Slice NSN)) (store (sarr p) (slen p) x) (+ (slen p) 1))))))
+@*/
+
 /*@ iface filter.ComparableFilter.Equals
-  theory filters
-  ensures (=> result (sameAccept $recv $0))
+  theory filtereq
+  ensures [sound] (=> result (sameAccept $recv $0))
+  ensures [complete] (=> (bs $recv $0) result)
 @*/
 
 /*@ func filter.Null
@@ -95,7 +150,7 @@ package filter
 @*/
 /*@ func (filter.nullFilter).Equals
   props C17
-  theory filters
+  theory filtereq
   implements filter.ComparableFilter.Equals
 @*/
 /*@ func filter.All
@@ -112,7 +167,7 @@ package filter
 @*/
 /*@ func (filter.allFilter).Equals
   props C17
-  theory filters
+  theory filtereq
   implements filter.ComparableFilter.Equals
 @*/
 
@@ -132,7 +187,7 @@ package filter
 @*/
 /*@ func (*filter.notFilter).Equals
   props C17
-  theory filters
+  theory filtereq
   implements filter.ComparableFilter.Equals
   requires [recv] (not (= {f} vnil))
 @*/
@@ -151,9 +206,10 @@ package filter
 
 /*@ func filter.FiltersEqual
   props C17 C07
-  theory filters
+  theory filtereq
   ensures [sound] (=> (and result (not (= {f1} vnil)) (not (= {f2} vnil))) (sameAccept {f1} {f2}))
   ensures [nil-cases] (=> (or (= {f1} vnil) (= {f2} vnil)) (= result (and (= {f1} vnil) (= {f2} vnil))))
+  ensures [complete] (=> (bs {f1} {f2}) result)
 @*/
 
 /*@ func filter.And
@@ -174,7 +230,7 @@ package filter
 @*/
 /*@ func (filter.andFilter).Equals
   props C17
-  theory filters
+  theory filtereq
   implements filter.ComparableFilter.Equals
 @*/
 /*@ func filter.Or
@@ -195,22 +251,23 @@ package filter
 @*/
 /*@ func (filter.orFilter).Equals
   props C17
-  theory filters
+  theory filtereq
   implements filter.ComparableFilter.Equals
 @*/
 /*@ func filter.compareFilterList
   props C17
-  theory filters
+  theory filtereq
   loop 1 inv [range] (and (<= 0 (+ {rangeindex} 1)) (<= (+ {rangeindex} 1) (slen {a})) (= (slen {a}) (slen {b})))
   loop 1 inv [prefix-same] (forall ((j Int)) (=> (and (<= 0 j) (< j (+ {rangeindex} 1)))
         (sameAccept (select (sarr {a}) j) (select (sarr {b}) j))))
-  ensures (=> result (and (= (slen {a}) (slen {b}))
+  ensures [sound] (=> result (and (= (slen {a}) (slen {b}))
         (forall ((j Int)) (=> (and (<= 0 j) (< j (slen {a}))) (sameAccept (select (sarr {a}) j) (select (sarr {b}) j))))))
+  ensures [complete] (=> (bsList {a} {b}) result)
 @*/
 
 /*@ func filter.NSName
   props C18 C17
-  theory filters
+  theory filters nspartials
   requires [no-entry-with-both-fields-empty] (forall ((j Int)) (=> (and (<= 0 j) (< j (slen {ids})))
         (not (and (= (nsn-ns (select (sarr {ids}) j)) |str!|) (= (nsn-name (select (sarr {ids}) j)) |str!|)))))
   loop 1 inv [range] (and (<= 0 (+ {rangeindex} 1)) (<= (+ {rangeindex} 1) (slen {ids})) (not (= {fullset} vnil)))
@@ -221,7 +278,15 @@ package filter
              (exists ((j Int)) (and (<= 0 j) (< j (+ {rangeindex} 1)) (= (select (sarr {ids}) j) (select (sarr {partials}) p)))))))
   loop 1 inv [partials-complete] (forall ((j Int)) (=> (and (<= 0 j) (< j (+ {rangeindex} 1)) (not (idFull (select (sarr {ids}) j))))
         (exists ((p Int)) (and (<= 0 p) (< p (slen {partials})) (= (select (sarr {partials}) p) (select (sarr {ids}) j))))))
+  loop 1 inv [partials-are-a-function-of-the-ids @C17] (= {partials} (pf {ids} (+ {rangeindex} 1) {zero:[]nsname.NSName}))
+  loop 1 inv [fullset-values-are-true @C17] (forall ((k NSN)) (=> (select {dom(fullset)} k) (select {val(fullset)} k)))
   ensures [is-nsname] (and (not (= result vnil)) (= (dyntype result) |ty!filter.nsNameFilter|))
+  ensures [representation-is-a-function-of-the-ids @C17] (let ((x (|unbox!filter.nsNameFilter| result)))
+        (and (= (|filter.nsNameFilter.partials| x) (pf {ids} (slen {ids}) {zero:[]nsname.NSName}))
+             (forall ((k NSN)) (= (select (|fdom!S!nsname.NSName!Bool| (|filter.nsNameFilter.fullset| x)) k)
+                (exists ((j Int)) (and (<= 0 j) (< j (slen {ids})) (= (select (sarr {ids}) j) k) (idFull k)))))
+             (forall ((k NSN)) (=> (select (|fdom!S!nsname.NSName!Bool| (|filter.nsNameFilter.fullset| x)) k)
+                (select (|fval!S!nsname.NSName!Bool| (|filter.nsNameFilter.fullset| x)) k)))))
   ensures [some-entry-matches] (forall ((o V)) (= (accept result o)
         (exists ((j Int)) (and (<= 0 j) (< j (slen {ids})) (idMatch (select (sarr {ids}) j) o)))))
 @*/
@@ -236,7 +301,7 @@ package filter
 @*/
 /*@ func (filter.nsNameFilter).Equals
   props C17
-  theory filters
+  theory filtereq
   implements filter.ComparableFilter.Equals
 @*/
 
@@ -270,7 +335,107 @@ package filter
 @*/
 /*@ func (*filter.selectorFilter).Equals
   props C17
-  theory filters labelsem
+  theory filtereq labelsem
   implements filter.ComparableFilter.Equals
   requires [recv] (not (= {f} vnil))
+@*/
+
+// ---- C17, "comparable filters built twice from the same arguments compare equal": one lemma per
+// constructor over the constructor's and FiltersEqual's contracts (the postconditions each function
+// is verified against); filter arguments are "the same" when they were themselves built the same way.
+
+/*@ lemma C17-built-twice-Null
+  props C17
+  theory filtereq
+  call r1 := filter.Null
+  call r2 := filter.Null
+  call eq := filter.FiltersEqual r1 r2
+  prove [built-the-same-way] (bs r1 r2)
+  prove [compare-equal] eq
+@*/
+/*@ lemma C17-built-twice-All
+  props C17
+  theory filtereq
+  call r1 := filter.All
+  call r2 := filter.All
+  call eq := filter.FiltersEqual r1 r2
+  prove [built-the-same-way] (bs r1 r2)
+  prove [compare-equal] eq
+@*/
+/*@ lemma C17-built-twice-Not
+  props C17
+  theory filtereq
+  var c1 : V
+  var c2 : V
+  assume [children-built-the-same-way] (bs c1 c2)
+  call r1 := filter.Not c1
+  call r2 := filter.Not c2
+  call eq := filter.FiltersEqual r1 r2
+  prove [built-the-same-way] (bs r1 r2)
+  prove [compare-equal] eq
+@*/
+/*@ lemma C17-built-twice-And
+  props C17
+  theory filtereq
+  var k1 : (Slice V)
+  var k2 : (Slice V)
+  assume [children-built-the-same-way] (bsList k1 k2)
+  call r1 := filter.And k1
+  call r2 := filter.And k2
+  call eq := filter.FiltersEqual r1 r2
+  prove [built-the-same-way] (bs r1 r2)
+  prove [compare-equal] eq
+@*/
+/*@ lemma C17-built-twice-Or
+  props C17
+  theory filtereq
+  var k1 : (Slice V)
+  var k2 : (Slice V)
+  assume [children-built-the-same-way] (bsList k1 k2)
+  call r1 := filter.Or k1
+  call r2 := filter.Or k2
+  call eq := filter.FiltersEqual r1 r2
+  prove [built-the-same-way] (bs r1 r2)
+  prove [compare-equal] eq
+@*/
+/*@ lemma C17-built-twice-NSName
+  props C17
+  theory filtereq nspartials
+  var ids : (Slice NSN)
+  assume (>= (slen ids) 0)
+  call r1 := filter.NSName ids
+  call r2 := filter.NSName ids
+  call eq := filter.FiltersEqual r1 r2
+  prove [built-the-same-way] (bs r1 r2)
+  prove [compare-equal] eq
+@*/
+/*@ lemma C17-built-twice-Selector
+  props C17
+  theory filtereq labelsem
+  var s : V
+  call r1 := filter.Selector s
+  call r2 := filter.Selector s
+  call eq := filter.FiltersEqual r1 r2
+  prove [built-the-same-way] (bs r1 r2)
+  prove [compare-equal] eq
+@*/
+/*@ lemma C17-built-twice-Labels
+  props C17
+  theory filtereq labelsem
+  var m : V
+  call r1 := filter.Labels m
+  call r2 := filter.Labels m
+  call eq := filter.FiltersEqual r1 r2
+  prove [built-the-same-way] (bs r1 r2)
+  prove [compare-equal] eq
+@*/
+/*@ lemma C17-built-twice-LabelSelector
+  props C17
+  theory filtereq labelsem
+  var ls : V
+  call r1 := filter.LabelSelector ls
+  call r2 := filter.LabelSelector ls
+  call eq := filter.FiltersEqual r1 r2
+  prove [built-the-same-way] (bs r1 r2)
+  prove [compare-equal] eq
 @*/
